@@ -1,6 +1,6 @@
 From Coq Require Extraction.
 From Coq Require Import ExtrOcamlBasic.
-From AIT Require Import Base.Vio Base.Qx C09.Model C09.Spec C09.Machines.
+From AIT Require Import Base.Vio Base.Qx C09.Model C09.Spec C09.Machines C09.ModelRandom C09.ModelFactored C09.SpecFactored.
 Extraction "model.ml" vio_kit maxl is_distb veqb
   greedy_policy greedy_prob greedy_tieset greedy_sample
   eps_prob eps_policy eps_sample sample_prob lrp_init lrp_step lrp_pol
@@ -13,4 +13,6 @@ Extraction "model.ml" vio_kit maxl is_distb veqb
   sr_init sr_step sr_sample sr_policy sr_prob sr_phase sr_new sr_avail logbar
   t3c_sample t3c_cost t3c_costs
   is_prob_matrixb prob_rowb policy_ctor
+  rnd_bounds rnd_sample rnd_prob rnd_policy adapt_policy adapt_prob adapt_sample mrnd_sample mrnd_prob mrnd_policy
+  factor_space frnd_bounds frnd_sample frnd_prob sa_init sa_update sa_sample sa_prob joint
   separatedb shift is_dist_tolb closeb mass_on_maxb in_supportb.
